@@ -337,8 +337,14 @@ def _scaling(record, root):
     def run(name, engine, f, extra=None):
         c = dict(base, engine=engine, dt=dt0 / f, steps=S0 * f)
         c["out"] = {"molid": [0], "print": 0, "ckpt": 0, "xyz": 0, "h5": {"data": f, "coordinates": f, "velocities": 0, "forces": 0}}
-        if engine in ("xl", "ksa"):
+        if engine in ("xl", "ksa", "exc_xl", "xl_esmd"):
             c["k"] = record["k"]
+        if engine in ("exc_basic", "exc_xl", "xl_esmd"):
+            c.update(n_states=3, active_state=1)
+        if engine == "exc_xl":
+            # excited-state XL-BOMD re-converges SCF and CIS at every step to its own (loose, 1e-5 / 1e-4) defaults,
+            # which would put a 2e-4 eV noise floor under the fluctuations: tighten them for the order measurement
+            c["xl_extra"] = {"scf_eps": 1e-10, "es_eps": 1e-8}
         if engine == "ksa":
             c["max_rank"] = record.get("rank", 2)
         c.update(extra or {})
@@ -350,7 +356,7 @@ def _scaling(record, root):
         data, _ = mdsim.dump_files(d, c)
         return data, r
 
-    ref, r = run("bomd", "basic", 16)
+    ref, r = run("bomd", "exc_basic" if eng in ("exc_xl", "xl_esmd") else "basic", 16)
     if ref is None:
         raise core.HarnessError(f"BOMD reference failed: {r.get('exc')}")
     xref = ref["0:h5:coordinates/values"]
@@ -398,7 +404,7 @@ class C09(core.Check):
     prop = PROP
     level = "exploration"
     module = "dst.c09"
-    budget = {"quick": 220, "thorough": 2400}
+    budget = {"quick": 300, "thorough": 3000}
     per_task_timeout = 3000
     assumptions = [
         "stability is sampled over the response grid gamma in {-0.05, 0, 0.3, 0.6, 0.9, 0.99} with a history-consistent perturbation at every buffer phase; this samples the admissible range, it is not a root-locus proof",
@@ -449,6 +455,10 @@ class C09(core.Check):
             for batch in ([["h2o"]] if tier == "quick" else [["h2o"], ["h2co"]]):
                 recs.append({"i": i, "layer": "scaling", "engine": eng, "k": k, "batch": batch, "rotate": rng.randrange(1 << 30), "seed": rng.randrange(1 << 20), "dt": 0.4, "steps": 40, "rank": 2})
                 i += 1
+        # excited-state surfaces (formaldehyde, state 1 of 3): XL-ESMD and excited-state XL-BOMD against excited-state BOMD
+        for eng, k in ([("xl_esmd", 5)] if tier == "quick" else [("xl_esmd", 5), ("xl_esmd", 8), ("exc_xl", 5), ("exc_xl", 3)]):
+            recs.append({"i": i, "layer": "scaling", "engine": eng, "k": k, "batch": ["h2co"], "rotate": rng.randrange(1 << 30), "seed": rng.randrange(1 << 20), "dt": 0.4, "steps": 24, "rank": 2})
+            i += 1
         # expensive families first so that they overlap with the many cheap cases
         recs.sort(key=lambda r: 0 if r["layer"] == "scaling" else 1)
         return recs
